@@ -440,7 +440,7 @@ func (ctrl *DefaultController) createTransaction(ctx context.Context, store Stor
 			if parameters.Input.Runtime == "" {
 				parameters.Input.Runtime = template.Runtime
 			}
-		} else {
+		} else if parameters.Input.Template != "" {
 			return nil, newErrSchemaValidationError(parameters.SchemaVersion, fmt.Errorf("failed to find transaction template `%s`", parameters.Input.Template))
 		}
 	} else if parameters.Input.Template != "" {
